@@ -97,6 +97,23 @@ def judge(chk, tag, V, obs, code, spec, fc_specs):
         if dev > 1e-10 * R:
             fails.append(("face-not-planar", "simplices %s are reported as one face but deviate from a common plane by %.3g" % (list(map(int, grp))[:6], dev)))
             break
+    # ... and a facet is reported ONCE: no two reported faces lie in one plane (their planes, from the first triangle of each, agree to
+    # rounding only when a facet was split)
+    planes = []
+    for grp in obs["coplanar"]:
+        a, b, c = Vv[Ss[grp[0]]]
+        N = np.cross(b - a, c - a)
+        nn = float(np.linalg.norm(N))
+        if nn > 0:
+            planes.append((N / nn, float(N @ a) / nn))
+    if planes:
+        Nn = np.array([p_[0] for p_ in planes]); dd = np.array([p_[1] for p_ in planes])
+        G = Nn @ Nn.T
+        close = (G > 1 - 1e-14) & (np.abs(dd[:, None] - dd[None, :]) <= 1e-11 * R)
+        np.fill_diagonal(close, False)
+        if np.any(close):
+            i_, j_ = np.argwhere(close)[0]
+            fails.append(("facet-reported-as-several-faces", "faces %d and %d lie in the same plane (normals agree, offsets differ by %.3g)" % (int(i_), int(j_), float(abs(dd[i_] - dd[j_])))))
     # face centroids against the exact centroid of the facet
     for k, fc in enumerate(fc_specs):
         if fc is None:
@@ -113,9 +130,9 @@ def run(chk):
                          "hull has >=1 non-triangular face or is off-origin; distinct by hash of the vertex array")
     shapes = []
     for _ in range(nshapes):
-        kind, V = gen.convex_set(rng, kinds=("ellipsoid", "ellipsoid", "lattice", "prismatic", "flat", "needle", "creased"))
+        kind, V = gen.convex_set(rng, kinds=("ellipsoid", "ellipsoid", "lattice", "prismatic", "flat", "needle", "creased", "bigprism", "biglattice"))
         # any size: a third of the solids are rescaled exactly by a power of two between 2^-24 (6e-8) and 2^10
-        if rng.random() < 0.34 and kind != "creased":
+        if rng.random() < 0.34 and kind not in ("creased", "bigprism", "biglattice"):
             V = V * 2.0 ** int(rng.integers(-24, 11))
             kind += "*2^k"
         shapes.append((kind, V))
